@@ -2,7 +2,7 @@ use std::{fmt, io};
 
 use bitflags::bitflags;
 use bytes::{Bytes, BytesMut};
-use http::{Method, Version};
+use http::{Method, StatusCode, Version};
 use tokio_util::codec::{Decoder, Encoder};
 
 use super::{
@@ -21,6 +21,7 @@ bitflags! {
         const HEAD               = 0b0000_0001;
         const KEEP_ALIVE_ENABLED = 0b0000_1000;
         const STREAM             = 0b0001_0000;
+        const BODILESS_STATUS    = 0b0010_0000;
     }
 }
 
@@ -146,6 +147,16 @@ impl Decoder for ClientCodec {
                 None => {}
             }
 
+            // 1xx, 204 and 304 responses cannot contain a message body (RFC 7230 §3.3.3): a
+            // Content-Length or Transfer-Encoding they carry does not promise any bytes
+            let status = req.status;
+            self.inner.flags.set(
+                Flags::BODILESS_STATUS,
+                status.is_informational()
+                    || status == StatusCode::NO_CONTENT
+                    || status == StatusCode::NOT_MODIFIED,
+            );
+
             if !self.inner.flags.contains(Flags::HEAD) {
                 match payload {
                     PayloadType::None => self.inner.payload = None,
@@ -192,7 +203,8 @@ impl Decoder for ClientPayloadCodec {
     /// Called once the connection has reached EOF.
     ///
     /// Only a read-until-close payload ends cleanly with the connection; a `Content-Length` or
-    /// chunked payload whose framed end has not been reached is incomplete.
+    /// chunked payload whose framed end has not been reached is incomplete, unless the response
+    /// status does not allow a body in the first place (1xx, 204, 304).
     fn decode_eof(&mut self, src: &mut BytesMut) -> Result<Option<Self::Item>, Self::Error> {
         if self.inner.payload.is_none() {
             // payload has already been read to its end
@@ -202,7 +214,10 @@ impl Decoder for ClientPayloadCodec {
         match self.decode(src)? {
             Some(item) => Ok(Some(item)),
             None => match self.inner.payload {
-                Some(ref payload) if !payload.is_eof_delimited() => {
+                Some(ref payload)
+                    if !payload.is_eof_delimited()
+                        && !self.inner.flags.contains(Flags::BODILESS_STATUS) =>
+                {
                     Err(PayloadError::Incomplete(None))
                 }
                 _ => Ok(None),
@@ -338,6 +353,23 @@ mod tests {
         let mut buf = BytesMut::from("HTTP/1.0 200 OK\r\n\r\n");
         codec.decode(&mut buf).unwrap().unwrap();
         assert!(matches!(codec.message_type(), MessageType::Payload));
+    }
+
+    #[actix_rt::test]
+    async fn eof_after_bodiless_status_with_content_length_is_clean() {
+        // a 304 may announce the length of the representation it does not send
+        let mut buf = BytesMut::new();
+        let mut pl = payload_codec(
+            "HTTP/1.1 304 Not Modified\r\ncontent-length: 24\r\n\r\n",
+            &mut buf,
+        );
+        assert_eq!(pl.decode_eof(&mut buf).unwrap(), None);
+
+        let mut buf = BytesMut::new();
+        let mut pl = payload_codec("HTTP/1.1 204 No Content\r\ncontent-length: 5\r\n\r\nab", &mut buf);
+        let chunk = pl.decode_eof(&mut buf).unwrap().unwrap().unwrap();
+        assert_eq!(chunk, Bytes::from_static(b"ab"));
+        assert_eq!(pl.decode_eof(&mut buf).unwrap(), None);
     }
 
     #[actix_rt::test]
